@@ -6,7 +6,10 @@ from exprun import CLASS_IDX
 PROP = "C17"
 RULE = ("model sets = corpus/exp + FK-shaped generator (several FKs to one table, self references, chains through key columns, junction "
         "tables with 2-3 legs, one-to-one, columns named like derived relation names) + vcommon loader-profile generator, a third of them "
-        "with identifier shapes (Rust/Python reserved words, leading digits, mixed case, non-ASCII); every table is rendered for the 3 ORMs; "
+        "with identifier shapes (Rust/Python reserved words, leading digits, mixed case, non-ASCII) + a systematic name-shape stream: 70 shapes "
+        "(leading / trailing / double `_` and `-`, separator followed by a digit, digits only, mixed case, Rust and Python keywords, non-ASCII, "
+        "empty after sanitising) each used as enum label (string and integer enum), enum name, column name, table name and FK column stem; "
+        "every table is rendered for the 3 ORMs; "
         "non-trivial = distinct (by hash of the models) set with >= 2 tables and >= 1 foreign key")
 
 # which classifier may explain which failure kind of which ORM
@@ -18,7 +21,7 @@ PY_EXPLAINS = {
 }
 FINDING_OF = {"clash": "C17-seaorm-member-clash", "py_ident": "C17-py-invalid-identifier", "py_dup": "C17-py-duplicate-definition",
               "py_empty_import": "C17-py-empty-sqlalchemy-import", "py_text": "C17-py-unescaped-text",
-              "py_sqlmodel_text": "C17-py-sqlmodel-text-import"}
+              "py_sqlmodel_text": "C17-py-sqlmodel-text-import", "rust_ident": "C17-seaorm-invalid-identifier"}
 
 
 def verdict(chk, run, tier, seed):
@@ -49,9 +52,15 @@ def verdict(chk, run, tier, seed):
         for j, t in enumerate(o["tables"]):
             if t["sea"]["status"] == "unparsed":
                 failing.append((o["idx"], j, "seaorm", ["unparsed"], t["sea"].get("why"), []))
+            inv = [w for w in (t["sea"].get("o17") or []) if w.startswith("invalid-")]
+            if inv:
+                # one record per table: the class is "every reported non-identifier is one the model predicts"
+                failing.append((o["idx"], j, "seaorm", sorted({w.split(":")[0] for w in inv}),
+                                {"not_rust_identifiers": inv, "note": "at least one of these is not predicted by the model of the unchanged exporter"}, ["rust_ident"]))
             for w in (t["sea"].get("o17") or []):
                 kind = w.split(":")[0]
-                failing.append((o["idx"], j, "seaorm", [kind], w, ["clash"] if kind.startswith("duplicate-") else []))
+                if not kind.startswith("invalid-"):
+                    failing.append((o["idx"], j, "seaorm", [kind], w, ["clash"] if kind.startswith("duplicate-") else []))
     # ---- O-C17 on the Python text (ast.parse, name resolution, columns once)
     for f in py["fails"]:
         kinds = sorted({x["kind"] for x in f["failures"]})
@@ -111,7 +120,7 @@ def run(tier, seed):
     chk = vflib.Check(PROP, tier, seed)
     chk.assumptions = ["model = coq/exp/Model/Names.v: declarations of the generated SeaORM entity (columns with Rust type / Option / primary key, relation fields, relation enums, enum types and variants, referenced entities); tie = K-exp: the real render_entity_with_schema text is parsed structurally and compared with `members` inside Coq for every table",
                        "PARTIAL: the Python half (SQLAlchemy, SQLModel: syntactically valid, every column exactly once, imports cover every name) is decided only by the ast-based oracle, a test",
-                       "Rust syntax of the generated entity is not checked (only its declarations)"]
+                       "Rust syntax of the generated entity is not checked beyond its declarations: every struct field, relation enum, enum type and enum variant must be a Rust identifier (ASCII shape [A-Za-z_][A-Za-z0-9_]*, not a keyword unless raw; non-ASCII characters are not judged); the module path super::<table>::Entity is not judged"]
     chk.cov["trusted_base"] = vflib.TRUSTED_COMMON + [
         "structural parser of the SeaORM text in harness_exp/hexp/src/seaparse.rs; Python ast module for the Python ORMs",
         "modelled, not verified: Unicode case mapping of non-ASCII characters (str::to_lowercase / to_uppercase / char::to_uppercase), Unicode alphanumeric classes in the Python exporters"]
